@@ -470,6 +470,11 @@ type PkgLocks struct {
 // reach it), address taken, or started by go/defer of a closure.
 func exposed(fn *ssa.Function, hasStaticCaller map[*ssa.Function]bool, addrTaken map[*ssa.Function]bool) bool {
 	if fn.Parent() != nil {
+		// a literal without free variables that is only called through a closed dispatch table is entered from
+		// the dispatching call sites
+		if len(fn.FreeVars) == 0 && hasStaticCaller[fn] {
+			return false
+		}
 		// closures that are only invoked synchronously at known sites inherit
 		// the lockset of those sites; all others can run at any time.
 		_, ok := ClosureUseSites(fn)
@@ -535,6 +540,14 @@ func AnalyzeLocks(p *Prog, lt *LockTable, pkgs ...string) (*PkgLocks, error) {
 				}
 			}
 		})
+	}
+	// functions that are only registered in a closed dispatch table (and called through it) are entered from those
+	// call sites only
+	for _, fn := range pl.Funcs {
+		if (fn.Parent() == nil || len(fn.FreeVars) == 0) && !hasCaller[fn] && p.OnlyDispatched(fn) {
+			delete(addrTaken, fn)
+			hasCaller[fn] = true
+		}
 	}
 	for _, fn := range pl.Funcs {
 		pl.entry[fn] = map[string]bool{}
@@ -666,37 +679,43 @@ func AnalyzeLocks(p *Prog, lt *LockTable, pkgs ...string) (*PkgLocks, error) {
 				if _, isGo := in.(*ssa.Go); isGo {
 					return
 				}
-				callee := ci.Common().StaticCallee()
-				if callee == nil {
-					return
-				}
-				callee = orig(callee)
-				if !inScope[callee] || callee.Parent() != nil {
-					return
+				var callees []*ssa.Function
+				if callee := ci.Common().StaticCallee(); callee != nil {
+					callees = []*ssa.Function{callee}
+				} else if !ci.Common().IsInvoke() {
+					callees, _ = p.DynCallees(ci.Common().Value)
 				}
 				var sts []string
-				if d, isDefer := in.(*ssa.Defer); isDefer {
-					sts = lf.statesAtDeferRun(d)
-				} else {
-					sts = lf.Res.Before(in)
-				}
-				for _, st := range sts {
-					var tks []string
-					for _, k := range stateKeys(st) {
-						id, ok := lf.IDs[k]
-						if !ok || id.Root == nil {
-							continue
-						}
-						if t, ok := translateToCallee(id, callee, ci.Common()); ok {
-							tks = append(tks, t.Key())
-							pl.ids[callee][t.Key()] = t
-						}
+				if len(callees) > 0 {
+					if d, isDefer := in.(*ssa.Defer); isDefer {
+						sts = lf.statesAtDeferRun(d)
+					} else {
+						sts = lf.Res.Before(in)
 					}
-					sort.Strings(tks)
-					es := strings.Join(tks, ";")
-					if !pl.entry[callee][es] {
-						pl.entry[callee][es] = true
-						changed = true
+				}
+				for _, callee := range callees {
+					callee = orig(callee)
+					if !inScope[callee] || (callee.Parent() != nil && len(callee.FreeVars) > 0) {
+						continue
+					}
+					for _, st := range sts {
+						var tks []string
+						for _, k := range stateKeys(st) {
+							id, ok := lf.IDs[k]
+							if !ok || id.Root == nil {
+								continue
+							}
+							if t, ok := translateToCallee(id, callee, ci.Common()); ok {
+								tks = append(tks, t.Key())
+								pl.ids[callee][t.Key()] = t
+							}
+						}
+						sort.Strings(tks)
+						es := strings.Join(tks, ";")
+						if !pl.entry[callee][es] {
+							pl.entry[callee][es] = true
+							changed = true
+						}
 					}
 				}
 			})
